@@ -1,6 +1,6 @@
 PROPERTY = "C20"
 LEVEL = "proof"
-LEAN_MODULES = ["CifModel.Props.C20"]
+LEAN_MODULES = ["CifModel.Props.C20", "CifModel.Props.ReviewC20"]
 REQUIRED = ["CifModel.C20_table", "CifModel.C20_distinct", "CifModel.C20_nerr_is_length", "CifModel.C20_codes_unique"]
 GEN = ["ErrCodes"]
 FAMILIES = ["err"]
